@@ -109,6 +109,18 @@ def report(prop, tier, seed, results, bounded, kf, known_by_id, wall, a):
                 obls.append(o); solver_s += o["seconds"]
                 if o.get("known_id") and o["status"] == "discharged" and not o.get("known_gone"): known_present.add(o["known_id"])
                 if o.get("known_gone"): known_gone.add(o["known_gone"])
+    # closure obligation (DESIGN §2.6 / §3.5 (F)): every function of the repository that stores to a field of the invariant's footprint is under contract
+    if prop in CLOSURE:
+        fields = set(CLOSURE[prop])
+        slots = _WORLD.classes["GState"].consts.get("__slots__")
+        if "@GState" in fields: fields |= {e.value for e in slots.elts}; fields.discard("@GState")
+        writers = _WORLD.footprint_writers(fields, CLOSURE_CLASSES.get(prop))
+        for q, fs in sorted(writers.items()):
+            if q.endswith(".__init__"): continue          # constructors: covered by the ground Init obligation
+            covered = q in functions
+            obls.append({"name": f"closure/{q} stores to {','.join(fs)} and is under contract", "kind": "closure", "props": [prop], "backend": "ast-scan", "seconds": 0.0,
+                         "where": q, "exit": None, "status": "discharged" if covered else "violated",
+                         "replay": None if covered else {"reproduced": False, "detail": f"{q} writes the tracked field(s) {fs} but no unit executes it: the history invariant is not closed under the API"}})
     violations, undecided, engine = [], [], []
     names = set()
     for o in obls:
@@ -208,6 +220,15 @@ def explanation(prop):
         if c: return c["text"] + "  ||  trusted/assumed: " + c["note"]
     except Exception: pass
     return "see DESIGN.md §4 " + prop
+
+
+_BUILDER_FIELDS = ["_current_axes", "_distance_mode", "_current_params", "_state", "_hooks", "_transformer", "_bounds", "_user_bounds", "@GState"]
+CLOSURE = {p: _BUILDER_FIELDS for p in ("C01", "C02", "C03", "C05", "C07", "C20")}
+CLOSURE["C20"] = ["_hooks", "_current_params"]
+CLOSURE_CLASSES = {p: ["GCodeCore", "GState", "BoundManager"] for p in ("C01", "C02", "C03", "C05", "C07", "C20")}
+CLOSURE_CLASSES["C13"] = ["CoordinateTransformer", "Transform"]; CLOSURE_CLASSES["C14"] = ["GCodeCore"]
+CLOSURE["C13"] = ["_current_transform", "_transforms_stack", "_named_transforms", "_matrix", "_inverse", "_pivot", "_to_pivot", "_from_pivot"]
+CLOSURE["C14"] = ["_writers"]
 
 
 LEVELS = {"C08": "other", "C12": "other", "C15": "other", "C16": "other"}
